@@ -39,11 +39,6 @@ goalign stats char -i align.fasta
 		}
 
 		for al := range aligns.Achan {
-			if aligns.Err != nil {
-				err = aligns.Err
-				io.LogError(err)
-				return
-			}
 			if charstatpersites {
 				err = printSiteCharStats(al, charstatonly)
 			} else if charstatpersequences {
@@ -51,6 +46,11 @@ goalign stats char -i align.fasta
 			} else {
 				printCharStats(al, charstatonly)
 			}
+		}
+
+		if aligns.Err != nil {
+			err = aligns.Err
+			io.LogError(err)
 		}
 		return
 	},
